@@ -149,7 +149,7 @@ func termSpace(maxN int) space {
 	return space{"terminators", alpha, alpha, 0, maxN}
 }
 
-var sampleBudget = map[string]int{"encode": 7, "line_sequences": 12, "terminator_sequences": 4, "single_edits": 7, "whitespace_amounts": 5, "skipped_char_insertions": 3, "random_mutants": 2}
+var sampleBudget = map[string]int{"encode": 7, "line_sequences": 10, "terminator_sequences": 4, "single_edits": 5, "whitespace_amounts": 5, "skipped_char_insertions": 3, "random_mutants": 2, "cli_routes": 4}
 
 type enumJob struct {
 	sp     *space
